@@ -130,6 +130,20 @@ theorem cmp_antisymm (a b : Term) :
 example : fastCompare (.abs "x" Ty.bool (.var "b" Ty.bool)) (.abs "y" Ty.bool (.var "a" Ty.bool)) = .gt ∧
     fastCompare (.abs "y" Ty.bool (.var "a" Ty.bool)) (.abs "x" Ty.bool (.var "b" Ty.bool)) = .lt := by decide
 
+/-- Canonical form of sorting: what `sorted_terms` returns — a list strictly increasing w.r.t.
+`fast_compare` — is determined, up to `==` position by position, by the set of its elements up to
+`==`; it cannot depend on the order or the identity of the input objects.  (A consequence of
+`cmp_trans` / `cmp_antisymm`; with an inconsistent comparator it fails.) -/
+theorem sorted_canonical (l1 l2 : List Term) (s1 : StrictSorted l1) (s2 : StrictSorted l2)
+    (h12 : ∀ a ∈ l1, ∃ b ∈ l2, Term.aeq a b = true) (h21 : ∀ b ∈ l2, ∃ a ∈ l1, Term.aeq a b = true) :
+    Forall2 (fun a b => Term.aeq a b = true) l1 l2 :=
+  strictSorted_unique l1 l2 s1 s2 h12 h21
+
+example : StrictSorted [.var "a" Ty.bool, .var "b" Ty.bool, .abs "x" Ty.bool (.bound 0)] := by
+  simp only [StrictSorted, List.pairwise_cons, List.mem_cons, List.not_mem_nil, or_false,
+    forall_eq_or_imp, forall_eq, List.Pairwise.nil, and_true, false_implies, implies_true]
+  decide
+
 /-- `fast_compare_typ` is a total order on types whose equivalence is `==`. -/
 theorem cmp_ty_total (a b c : Ty) :
     (fastCompareTyp a b = .eq ↔ a = b) ∧
